@@ -104,7 +104,7 @@ fn c15_coeff_from_three_bytes() {
     match (r, s) {
         (Ok(x), Some(y)) => assert!(x as i64 == y),
         (Err(_), None) => {}
-        _ => assert!(false, "accept/reject mismatch"),
+        _ => kani::assert(false, "accept/reject mismatch"),
     }
     kani::cover!(r.is_err());
     kani::cover!(r == Ok(Q - 1));
@@ -120,7 +120,7 @@ fn c15_coeff_from_half_byte() {
     match (r, s) {
         (Ok(x), Some(y)) => assert!(x as i64 == y),
         (Err(_), None) => {}
-        _ => assert!(false, "accept/reject mismatch"),
+        _ => kani::assert(false, "accept/reject mismatch"),
     }
     kani::cover!(r.is_err() && eta == 2);
     kani::cover!(r.is_err() && eta == 4);
